@@ -76,6 +76,8 @@ def fleet_subjects(tier, c14=False):
         out.append(S("fleet", 2, live=1, delay=2, transit=1, age_cap=5, grid=1))
     else:
         out.append(S("fleet", 1, live=2, delay=2, transit=1, drain=1, age_cap=5, grid=1, prios=[0, 1]))
+        # three granted retrievals on one fleet (asymmetric, event-to-event time steps only)
+        out.append(S("fleet", 3, live=1, live_p=1, live_g=3, delay=1, transit=0.5, drain=1, age_cap=2, grid=0.5, notime=1))
     if not q:
         out.append(S("fleet", 2, live=2, delay=2, transit=1, drain=1, age_cap=5, grid=1, prios=[0, 1]))
         out.append(S("fleet", 2, live=2, delay=1, transit=1, drain=1, age_cap=5, grid=0.5))
@@ -144,7 +146,7 @@ def jobs_for(prop, tier):
             c1 = dict(caps)
             if prop == "C06" and q:
                 # the possible-worlds monitor of C06 multiplies the states of subjects with many outstanding retrievals
-                if sp.cap == 4 and sp.get("live_g") == 4:
+                if (sp.cap == 4 and sp.get("live_g") == 4) or (sp.kind == "fleet" and sp.get("live_g") == 3):
                     continue
                 if sp.kind == "buffer" and sp.cap == 3 and sp.get("live_g", 0) >= 2 and sp.get("delays") == [0, 1]:
                     c1["max_states"] = 12000
@@ -161,6 +163,10 @@ def jobs_for(prop, tier):
             jobs += f_jobs(prop, tier)   # "in whole factories" clause
     elif prop in F_FAMILIES:
         jobs = f_jobs(prop, tier)
+        if prop == "C12":    # whole factories: only configurations with a conveyor
+            jobs = [j for j in jobs if any(e["t"] in ("cconv", "sconv") for e in j["config"]["edges"])]
+        if prop == "C14":    # ... with a fleet
+            jobs = [j for j in jobs if any(e["t"] == "fleet" for e in j["config"]["edges"])]
     if prop == "C05":
         # queue-heavy subjects: four waiting requests on one side, three priority values (a middle position among equals exists)
         for sp in (S("rps", 1, live=1, live_p=4, live_g=1, prios=[0, 1, 2]), S("rps", 1, live=1, live_p=1, live_g=4, prios=[0, 1, 2]),
@@ -222,7 +228,6 @@ def jobs_for(prop, tier):
                 cc["max_states"] = sp.get("cap_states")
             jobs.append({"engine": "S", "prop": prop, "label": sp.label() + "#" + _h(sp), "spec": sp.to_json(), "caps": cc})
         if prop == "C12":
-            jobs += [j for j in f_jobs(prop, tier) if any(e["t"] in ("cconv", "sconv") for e in j["config"]["edges"])]   # whole factories
             for sp in conveyor_store_subjects(tier):
                 sp.kw["order_only"] = 1
                 jobs.append({"engine": "S", "prop": prop, "label": sp.label() + "#" + _h(sp), "spec": sp.to_json(),
@@ -230,7 +235,6 @@ def jobs_for(prop, tier):
     elif prop == "C14":
         for sp in fleet_subjects(tier, c14=True):
             jobs.append({"engine": "S", "prop": prop, "label": sp.label() + "#" + _h(sp), "spec": sp.to_json(), "caps": caps})
-        jobs += [j for j in f_jobs(prop, tier) if any(e["t"] == "fleet" for e in j["config"]["edges"])]   # loading order in whole factories
     return jobs
 
 
